@@ -96,4 +96,22 @@ theorem idle_full (fl : Flags) (totals : List Nat) (s : St) (h : Reachable fl to
   obtain ⟨N, hi⟩ := h.inv
   exact hi.idle_full hr ht t
 
+/-! ### the hypotheses are satisfiable: a concrete run (token 0 of capacity 2; job 0 asks 1 and succeeds, job 1
+    asks 2, has its first start aborted while job 0 runs, is retried after the release, runs, and fails);
+    `flOK`, `demoRun k` are defined at the end of `Proofs/SchedCap.lean`. -/
+
+example (k : Nat) : Reachable flOK [2] (demoRun k) := ⟨_, rfl⟩
+/-- job 0 running and holding 1 of 2, job 1 in an aborted start holding nothing. -/
+example : ((demoRun 0).jobs 0).state = .running ∧ ((demoRun 0).jobs 0).held = [0] ∧ ((demoRun 0).jobs 0).pc = .lockExitRun ∧
+    ((demoRun 0).jobs 1).pc = .lockExitAbort ∧ ((demoRun 0).jobs 1).held = [] ∧ (demoRun 0).avail 0 = 1 ∧
+    heldTok ((demoRun 0).jobs 0) 0 = 1 ∧ request ((demoRun 0).jobs 1) 0 = 2 ∧ (demoRun 0).n = 2 := by decide
+/-- `released_on_every_exit` applies: job 0 waits for its exit code holding 1; afterwards token 0 is full. -/
+example : ((demoRun 2).jobs 0).pc = .codeWait ∧ heldTok ((demoRun 2).jobs 0) 0 = 1 ∧ (demoRun 2).avail 0 = 1 ∧
+    ((demoRun 2).resume flOK 0).avail 0 = 2 := by decide
+/-- later job 1 runs alone holding 2 of 2. -/
+example : ((demoRun 5).jobs 1).state = .running ∧ ((demoRun 5).jobs 1).held = [0] ∧ (demoRun 5).avail 0 = 0 := by decide
+/-- `idle_full` applies: everything finished, nothing pending, token full. -/
+example : (demoRun 8).ready = [] ∧ (demoRun 8).threads = [] ∧ (demoRun 8).avail 0 = 2 ∧
+    ((demoRun 8).jobs 0).pc = .finished .done ∧ ((demoRun 8).jobs 1).pc = .finished .error := by decide
+
 end XpmVerif.C08
